@@ -698,8 +698,13 @@ func (p *Posix) deleteNullVersionIdObject(bucket, key string) error {
 	if errors.Is(err, fs.ErrNotExist) {
 		return nil
 	}
+	if err != nil {
+		return err
+	}
 
-	return err
+	// a metadata store that keeps attributes by path (sidecar) must not
+	// hand them on to the next null version archived under this name
+	return p.meta.DeleteAttributes(p.genObjVersionPath(bucket, key), nullVersionId)
 }
 
 // Creates a new copy(version) of an object in the versioning directory
@@ -3228,6 +3233,12 @@ func (p *Posix) DeleteObject(ctx context.Context, input *s3.DeleteObjectInput) (
 					if err != nil {
 						return nil, fmt.Errorf("remove obj version: %w", err)
 					}
+					// attributes kept by path (sidecar) would otherwise be
+					// inherited by the next object written to this key
+					err = p.meta.DeleteAttributes(bucket, object)
+					if err != nil {
+						return nil, fmt.Errorf("remove obj version attributes: %w", err)
+					}
 					p.removeParents(bucket, object)
 					return &s3.DeleteObjectOutput{
 						DeleteMarker: &isDelMarker,
@@ -3242,6 +3253,12 @@ func (p *Posix) DeleteObject(ctx context.Context, input *s3.DeleteObjectInput) (
 					err = os.Remove(objpath)
 					if err != nil {
 						return nil, fmt.Errorf("remove obj version: %w", err)
+					}
+					// attributes kept by path (sidecar) would otherwise be
+					// inherited by the next object written to this key
+					err = p.meta.DeleteAttributes(bucket, object)
+					if err != nil {
+						return nil, fmt.Errorf("remove obj version attributes: %w", err)
 					}
 					p.removeParents(bucket, object)
 					return &s3.DeleteObjectOutput{
@@ -3308,6 +3325,13 @@ func (p *Posix) DeleteObject(ctx context.Context, input *s3.DeleteObjectInput) (
 				if err != nil {
 					return nil, fmt.Errorf("list object attributes: %w", err)
 				}
+				// drop the attributes of the version that is being deleted:
+				// kept by path (sidecar), its delete marker flag or version
+				// id would otherwise stay attached to the promoted version
+				err = p.meta.DeleteAttributes(bucket, object)
+				if err != nil {
+					return nil, fmt.Errorf("remove old attributes: %w", err)
+				}
 
 				for _, attr := range attrs {
 					data, err := p.meta.RetrieveAttribute(nil, versionPath, srcVersionId, attr)
@@ -3331,6 +3355,10 @@ func (p *Posix) DeleteObject(ctx context.Context, input *s3.DeleteObjectInput) (
 				if err != nil {
 					return nil, fmt.Errorf("remove obj version %w", err)
 				}
+				err = p.meta.DeleteAttributes(versionPath, srcVersionId)
+				if err != nil {
+					return nil, fmt.Errorf("remove obj version attributes: %w", err)
+				}
 
 				p.removeParents(filepath.Join(p.versioningDir, bucket), filepath.Join(genObjVersionKey(object), *input.VersionId))
 
@@ -3351,6 +3379,10 @@ func (p *Posix) DeleteObject(ctx context.Context, input *s3.DeleteObjectInput) (
 			}
 			if err != nil {
 				return nil, fmt.Errorf("delete object: %w", err)
+			}
+			err = p.meta.DeleteAttributes(versionPath, *input.VersionId)
+			if err != nil {
+				return nil, fmt.Errorf("delete object attributes: %w", err)
 			}
 
 			p.removeParents(filepath.Join(p.versioningDir, bucket), filepath.Join(genObjVersionKey(object), *input.VersionId))
